@@ -1316,6 +1316,15 @@ def pretty_frozenset(value, ctx):
     return pretty_call_alt(ctx, constructor)
 
 
+def _without_comments(key):
+    # The value a dict key is ordered by: comments are not part of it,
+    # also when they are attached to the elements of a tuple key.
+    key = unwrap_comments(key)[0]
+    if isinstance(key, tuple):
+        return tuple(_without_comments(el) for el in key)
+    return key
+
+
 class _AlwaysSortable(object):
     __slots__ = ('value', )
 
@@ -1366,7 +1375,7 @@ def pretty_dict(d, ctx, trailing_comment=None):
         sorted(
             d.keys(),
             # A key carrying a comment is ordered by the key itself.
-            key=lambda k: _AlwaysSortable(unwrap_comments(k)[0])
+            key=lambda k: _AlwaysSortable(_without_comments(k))
         )
         if ctx.sort_dict_keys
         else d.keys()
